@@ -22,7 +22,9 @@ META = dict(
     note=("Trusted: harness conversion to integer lattice data (jump cell vectors, crys.G as (S, perm, shifts), dR recovered "
           "from dx with residual <= 1e-8); crys.G is the space group (C18); the jump network is complete and reversal-closed "
           "(C21). 'Starts or ends in the thermodynamic range' is taken as: one of the two states is a state reachable within "
-          "Nthermo jumps. starpair is not part of the property (only used by the pruning, which is checked through its result)."),
+          "Nthermo jumps. starpair is not part of the property (only used by the pruning, which is checked through its result). "
+          "For speed the harness replaces crystalStars.zeroclean (post-processing of expansion arrays, not observed here) by an "
+          "equivalent vectorised function inside its own process."),
     technique="Coq proof (enumeration = definition, verified partition/orbit checker) + exact correspondence",
 )
 
@@ -148,6 +150,14 @@ def run(ck):
                    "crys.G is the space group (C18); crys.jumpnetwork is complete and closed under reversal (C21)"]
     ck.theorems()
     from onsager import crystalStars, OnsagerCalc
+    # crystalStars.zeroclean (a python-level nditer loop, ~45% of VacancyMediated's construction time) only post-processes
+    # the vector-star expansion arrays, which C26 does not observe; it is replaced for this process by the equivalent
+    # vectorised statement so that larger kinetic sets fit the time budget.  The jump-network code path is untouched.
+    def _fastclean(x, threshold=1e-8):
+        x[np.abs(x) < threshold] = 0
+        return x
+    crystalStars.zeroclean = _fastclean
+    ck.note("crystalStars.zeroclean replaced by its vectorised equivalent in this process (expansions are not observed by C26)")
     rng = ck.rng
     ncrys = ck.n(14, 90)
     vm_max_states = ck.n(140, 520)          # VacancyMediated construction cost grows fast
